@@ -31,6 +31,13 @@ def coq_expr(s, r):
     return f"check_C12 ({s.coq(*r['adr'])}) {common.obs_list(r)}"
 
 
+def second_expr(s, r):
+    """second comparison (Monitors.second_C12): equal up to the run of releases that contains the faulted release"""
+    if not s.f1:
+        return None
+    return f"second_C12 ({s.coq(*r['adr'])}) {common.obs_list(r)}"
+
+
 def classify(s, r):
     m = s.meta
     kind = m["desc"].split(":")[0].split("[")[0]
